@@ -5,10 +5,10 @@ import lib, storelib as S, arithlib as A
 from lib import Result, model_call, run_sharded, e_fmt, Reader, RMODES, OMODES
 
 RULE = ('all code pairs for n_word<=4 (quick) / <=6 (thorough) with every signedness combination and n_frac in 0..n_word; boundary and random codes for n_word in {16,31,32,33,63,64,65,100,128}; '
-        'y is a fixed-point object of the same word length (either signedness, any n_frac) or an integer mask on either side (also negative masks and masks wider than the word); operators ~ & | ^, the laws ~~x == x, '
+        'x scalar, and x holding arrays of 1..4 codes (element-wise); y is a scalar fixed-point object of the same word length (either signedness, any n_frac) or an integer mask on either side (also negative masks and masks wider than the word); operators ~ & | ^, the laws ~~x == x, '
         '~x == -x - LSB (signed), De Morgan; malformed stream: operands of different word lengths must raise. The expected pattern is computed with Python integer bit operations on (code mod 2^n_word); compared also with the model. '
         'Non-trivial = both patterns are neither 0 nor all-ones; distinct by full input.')
-ASSUMPTIONS = ['scalar operands (x & y with array operands raises TypeError in the implementation; arrays are outside the stated quantifier)']
+ASSUMPTIONS = ['the second operand is a scalar object or an integer mask (x & y with an ARRAY second operand raises TypeError in the implementation at every width: unsupported rather than wrong, not generated); x may hold an array of codes']
 WIDE = [16, 31, 32, 33, 63, 64, 65, 100, 128]
 
 def code_of_pattern(s, n, u):
@@ -76,6 +76,34 @@ def run_cases(cases, res, stratum):
             if k in obs and obs[k][0] != obs[k][1]:
                 res.fail(c, 'C13: De Morgan law violated', expected=obs[k][0], got=obs[k][1]); break
 
+def run_array_cases(cases, res, stratum):
+    """x holds an array of codes, y is a scalar object of the same word length or an integer mask: element-wise patterns"""
+    fx = lib.impl(); import numpy as np
+    for c in cases:
+        s, n, nf = c['x']; mask = (1 << n) - 1
+        try:
+            x = fx.Fxp(list(c['cxs']), s, n, nf, raw=True)
+            if c['y'] is not None:
+                sy, ny, nfy = c['y']; y = A.mk(fx, np, sy, ny, nfy, c['cy'])
+            else: y = c['cy']
+            got = {'&': x & y, '|': x | y, '^': x ^ y, '~': ~x}
+            obs = {k: (A.fmt_of(v), lib.codes_of(v), lib.status3(v)[:2]) for k, v in got.items()}
+            obs['~~'] = lib.codes_of(~(~x)); obs['x_after'] = lib.codes_of(x)
+        except Exception as e:
+            res.fail(c, 'C13: a bitwise operator on an array of codes raised %s' % lib.exc_name(e), got=str(e)[:200]); continue
+        uy = c['cy'] & mask; uxs = [cx & mask for cx in c['cxs']]
+        res.count(stratum, key=repr(c), nontrivial=any(u not in (0, mask) for u in uxs) and uy not in (0, mask), n=4 * len(uxs))
+        res.sample(c)
+        want = {'&': [u & uy for u in uxs], '|': [u | uy for u in uxs], '^': [u ^ uy for u in uxs], '~': [mask - u for u in uxs]}
+        bad = False
+        for k in ('&', '|', '^', '~'):
+            f, codes, st = obs[k]; wc = [code_of_pattern(s, n, u) for u in want[k]]
+            if f != (s, n, nf) or codes != wc or st != (False, False):
+                res.fail(c, 'C13: result of %s on an array is not, element by element, the bitwise pattern in x\'s format' % k, expected={'fmt': (s, n, nf), 'codes': wc}, got=(f, codes, st)); bad = True; break
+        if bad: continue
+        if obs['~~'] != list(c['cxs']) or obs['x_after'] != list(c['cxs']):
+            res.fail(c, 'C13: ~~x differs from x on an array (or the operand was modified)', expected=c['cxs'], got=(obs['~~'], obs['x_after']))
+
 def gen_y(rng, n, small_codes=None):
     k = rng.random()
     if k < 0.55:
@@ -109,6 +137,15 @@ def shard(shard, nshards, rng, tier, extra):
         cases.append({'x': [s, n, rng.choice([0, 1, n // 2, n])], 'cx': cx, 'y': y, 'cy': cy, 'side': rng.choice(['left', 'right'])})
     run_cases(cases, res, 'B:wide-words')
     cases = []
+    for _ in range((600 if tier == 'quick' else 15000) // nshards):
+        n = rng.choice(WIDE + [2, 4, 8]); s = rng.random() < 0.5; lo, hi = S.fmt_bounds(s, n)
+        cxs = [rng.choice([lo, hi, 0, lo + 1, hi - 1, -1 if s else 1, rng.randint(lo, hi), rng.randint(lo, hi)]) for _k in range(rng.randint(1, 4))]
+        y, cy = gen_y(rng, n)
+        if y is not None:
+            ly, hy = S.fmt_bounds(y[0], n); cy = rng.choice([ly, hy, 0, rng.randint(ly, hy)])
+        cases.append({'x': [s, n, rng.choice([0, 1, n // 2, n])], 'cxs': cxs, 'y': y, 'cy': cy})
+    run_array_cases(cases, res, 'R:arrays-of-codes')
+    cases = []
     for _ in range((300 if tier == 'quick' else 5000) // nshards):
         n = rng.choice([3, 8, 16, 32, 64, 65]); ny = n + rng.choice([-1, 1, 8, -2])
         if ny < 1: ny = n + 1
@@ -121,5 +158,7 @@ def run(seed, tier):
     return run_sharded('c13', 'shard', 16, seed, tier)
 def classify(fl): return None
 def replay(payload):
-    res = Result(); run_cases([payload['case']], res, 'replay')
+    res = Result(); c = payload['case']
+    if 'cxs' in c: run_array_cases([c], res, 'replay')
+    else: run_cases([c], res, 'replay')
     return {'holds': not res.failures, 'failures': res.failures}
